@@ -397,3 +397,215 @@ class Update(Spec):
 
     def model(self, cx, a):
         return NotImplemented
+
+
+# ---------------------------------------------------------------- Forcing.__init__: the pre-roll to step -1
+
+
+class StepList(SymSeq):
+    """The step list as forcing_steps returns it: in file (time) order, i.e. ascending in a forward run and
+    descending in a time-reversed run; ``sort()`` puts it in ascending order (``at`` is the ascending view)."""
+
+    def __init__(self, cx, rev):
+        super().__init__(cx)
+        self.rev = rev
+        self.is_sorted = False
+
+    def raw(self, k):
+        k = V.to_z3(k)
+        return z3.If(self.rev, self.at(self.len - 1 - k), self.at(k))
+
+    def view(self, k):
+        return self.at(k) if self.is_sorted else self.raw(k)
+
+    def pv_getattr(self, cx, name):
+        if name == "sort":
+            me = self
+
+            def sort(interp):
+                me.is_sorted = True
+
+            sort._pyvc_model = True
+            return sort
+        return super().pv_getattr(cx, name)
+
+    def pv_getitem(self, cx, idx):
+        cx.oblige(f"index into the forcing steps in range: 0 <= {idx} < len(steps)", z3.And(V.to_z3(idx) >= 0, V.to_z3(idx) < self.len), kind="index")
+        return self.view(idx)
+
+    def pv_diff(self, cx):
+        me = self
+        srt = self.is_sorted
+        return Arr((self.len - 1,), lambda k: (me.at(V.to_z3(k) + 1) - me.at(k)) if srt else (me.raw(V.to_z3(k) + 1) - me.raw(k)), "int")
+
+    def pv_comprehension(self, interp, node, env, mod):
+        import ast
+
+        gen = node.generators[0]
+        if not (isinstance(node.elt, ast.Name) and isinstance(gen.target, ast.Name) and node.elt.id == gen.target.id and len(gen.ifs) == 1):
+            raise Unsupported("comprehension form over the forcing steps")
+        if not self.is_sorted:
+            raise Unsupported("filtering the unsorted step list")
+        seq = self
+
+        def pred(x):
+            e2 = dict(env)
+            e2[gen.target.id] = x
+            return V.to_z3(interp.truth(interp.eval(gen.ifs[0], e2, mod)))
+
+        return FilteredSteps(seq, pred)
+
+
+class FilteredSteps(ModelObject):
+    def __init__(self, seq, pred):
+        self.seq, self.pred = seq, pred
+        self._truth = None
+
+    def pv_truth(self, cx):
+        if self._truth is None:
+            b = cx.fresh("nonempty", "bool")
+            w = cx.fresh("where")
+            seq, pred = self.seq, self.pred
+            cx.assume(z3.Implies(b, z3.And(w >= 0, w < seq.len, pred(seq.at(w)))))
+            d = seq.decl
+            cx.univ.append(UnivFact(1, lambda k: z3.Implies(z3.And(z3.Not(b), k >= 0, k < seq.len), z3.Not(pred(d(k)))), decls=[d]))
+            self._truth = b
+        return self._truth
+
+    def pv_max(self, cx):
+        seq, pred = self.seq, self.pred
+        j = cx.fresh("jmax")
+        cx.assume(z3.And(j >= 0, j < seq.len, pred(seq.at(j))))
+        d = seq.decl
+        cx.univ.append(UnivFact(1, lambda k: z3.Implies(z3.And(k >= 0, k < seq.len, pred(d(k))), d(k) <= d(j)), decls=[d]))
+        return seq.at(j)
+
+
+class ForcingInit(Spec):
+    """Forcing.__init__: establishes the time-interpolation invariant at step -1 for every start offset:
+    with b the bracket of step -1 (or the frame at step 0 when none lies before the start),
+    u == frame_b + (-1 - s_b)*slope_b, dU == slope_b, u_new == frame_{b+1} (== frame_b when s_b == 0, adopted at step 0),
+    scalar == frame_b; stepdiff is the difference of the SORTED steps."""
+
+    func = "ladim.ROMS.Forcing.__init__"
+    name = "Forcing.__init__"
+    properties = ("C03", "C10", "C20")
+    inline = ("ladim.forcing.BaseForce.__init__",)
+
+    def __init__(self):
+        spec = self
+
+        def find_files(interp, args, kwargs):
+            return ["<file 1>", "<file 2>"]
+
+        def forcing_steps(interp, args, kwargs):
+            return (spec._steps, SymMapObj("file"), SymMapObj("rec"))
+
+        self.callees = {
+            "ladim.ROMS.find_files": find_files,
+            "ladim.ROMS.forcing_steps": forcing_steps,
+            "ladim.ROMS.Forcing._read_velocity": ReadVelocity(),
+            "ladim.ROMS.Forcing._read_field": ReadField(),
+        }
+
+    def inputs(self, cx):
+        grid = make_grid(cx, with_vertical=True)
+        rev = z3.Bool("time_reversal")
+        timer = Obj("ladim.timekeeper.TimeKeeper", time_reversal=rev)
+        steps = StepList(cx, rev)
+        self._steps = steps
+        # contract of forcing_steps: the forcing covers the time window (first step <= 0, a frame after the start)
+        cx.assume(z3.And(steps.at(0) <= 0, steps.at(steps.len - 1) >= 1))
+        me = Obj("ladim.ROMS.Forcing")
+        me.attrs["_ghost_steps"] = steps
+        a = Args(self=me, modules=dict(time=timer, grid=grid), filename="f_*.nc", extra_forcing=["temp"])
+        a._steps = steps
+        return a
+
+    def call_args(self, a):
+        return [a.self], dict(modules=a.modules, filename=a.filename, extra_forcing=a.extra_forcing)
+
+    def model(self, cx, a):
+        return NotImplemented
+
+    def ensures(self, cx, a, result):
+        t = a.self.attrs
+        steps = a._steps
+        fld = t.get("fields", {})
+        out = []
+        # the bracket index of step -1
+        b = z3.Int("b_init")
+        neg = z3.And(b >= 0, b + 1 < steps.len, steps.at(b) <= -1, -1 < steps.at(b + 1))
+        zero = z3.And(b >= 0, b + 1 < steps.len, steps.at(b) == 0, z3.Implies(b >= 1, steps.at(b - 1) >= 0))
+        hyp = z3.Or(neg, z3.And(b == 0, steps.at(0) == 0))
+        k, j, i = z3.Ints("node_k node_j node_i")
+
+        def chk(key, spec, label):
+            arr = fld.get(key)
+            if not isinstance(arr, Arr) or arr.ndim != 3:
+                out.append((label + " (field is a 3-D array)", False))
+                return
+            inb = z3.And(k >= 0, k < arr.shape[0], j >= 0, j < arr.shape[1], i >= 0, i < arr.shape[2])
+            out.append((label, z3.Implies(z3.And(hyp, inb), arr.at(k, j, i) == spec(k, j, i))))
+
+        chk("u", lerp(frameU, steps, b, -1), "C03: after __init__: u == interpolation/extrapolation of the bracketing frames at step -1")
+        chk("v", lerp(frameV, steps, b, -1), "C03: after __init__: v at step -1")
+        chk("dU", slope(frameU, steps, b), "C03: after __init__: dU == slope of the first interval")
+        chk("dV", slope(frameV, steps, b), "C03: after __init__: dV == slope of the first interval")
+        chk("u_new", lambda kk, jj, ii: z3.If(steps.at(b) == 0, frameU(steps.at(b), kk, jj, ii), frameU(steps.at(b + 1), kk, jj, ii)), "C03: after __init__: u_new == the frame adopted at the next frame step")
+        chk("temp", lambda kk, jj, ii: frameS(steps.at(b), kk, jj, ii), "C03: after __init__: scalar field == latest frame at or before the start")
+        sd = t.get("stepdiff")
+        kk = z3.Int("k_sd")
+        ok = isinstance(sd, Arr) and sd.ndim == 1
+        out.append(("C03/C10: stepdiff[k] == s_{k+1} - s_k of the steps in ascending order (both directions)", z3.And(V.to_z3(V.s_cmp("==", sd.shape[0], steps.len - 1)), z3.Implies(z3.And(kk >= 0, kk + 1 < steps.len), sd.fn(kk) == steps.at(kk + 1) - steps.at(kk))) if ok else False))
+        kept = t.get("steps")
+        out.append(("the step list kept by the forcing is the sorted one", isinstance(kept, StepList) and kept.decl.eq(steps.decl) and kept.is_sorted))
+        out.append(("C10: the forcing remembers the time direction", V.s_cmp("==", t.get("time_reversal", None), z3.Bool("time_reversal")) if t.get("time_reversal") is not None else False))
+        return out
+
+
+class SymMapObj(ModelObject):
+    def __init__(self, name):
+        self.name = name
+
+
+class ForcingStepsCoverage(Spec):
+    """forcing_steps, the part before the step tables are built: SystemExit(3) exactly when the frames do not cover
+    the simulated window (first frame after the earlier end, or last frame before the later end)."""
+
+    func = "ladim.ROMS.forcing_steps"
+    name = "ROMS.forcing_steps[coverage check]"
+    properties = ("C20", "C03")
+    inline = ()
+
+    def __init__(self):
+        def scan(interp, args, kwargs):
+            n = z3.Int("nframes")
+            interp.cx.assume(n >= 1)
+            return (sym_array("frame_time", (n,), "int"), {})
+
+        self.callees = {"ladim.ROMS.scan_file_times": scan}
+
+    def body_slice(self, node):
+        import ast
+
+        for k, st in enumerate(node.body):
+            if isinstance(st, ast.Assign) and isinstance(st.targets[0], ast.Name) and st.targets[0].id == "steps":
+                return node.body[:k], f"lines {node.body[0].lineno}-{st.lineno - 1} (scan + coverage check; the table-building loops below are covered by the bounded layout sweep)"
+        return None
+
+    def inputs(self, cx):
+        tmin, tmax = z3.Ints("min_time max_time")
+        cx.assume(tmin <= tmax)
+        return Args(files=["<f>"], timer=Obj("ladim.timekeeper.TimeKeeper", min_time=tmin, max_time=tmax))
+
+    def slice_env(self, cx, a):
+        return dict(files=a.files, timer=a.timer)
+
+    def raises(self, cx, a):
+        f = z3.Function("frame_time", z3.IntSort(), z3.IntSort())
+        n = z3.Int("nframes")
+        return [(z3.Or(f(0) > z3.Int("min_time"), f(n - 1) < z3.Int("max_time")), "SystemExit")]
+
+    def model(self, cx, a):
+        return NotImplemented
